@@ -132,8 +132,21 @@ func (r *Resolver) AutoTA() {
 	newRevocation := false
 
 	kskCurrent, err := readFromTAFile(filename)
+	if err != nil && !os.IsNotExist(err) {
+		// The state file can hold the only durable record of a
+		// revocation (StateRevoked marker kept while the tombstone
+		// write was failing). Treating an unreadable or corrupt file
+		// as a first start would re-seed that key from the
+		// configuration and overwrite the marker.
+		zlog.Error("Trust anchor state file corrupted or unreadable — clearing in-memory trust set and aborting refresh", "path", filename, "error", err.Error())
+		r.Lock()
+		r.rootKeys = nil
+		r.Unlock()
+		refreshResult = taRefreshPersistenceError
+		return
+	}
 	if err != nil {
-		zlog.Warn("No trust anchor state file found or the state corrupted! New one will be generate.", "path", filename)
+		zlog.Warn("No trust anchor state file found. New one will be generate.", "path", filename)
 
 		kskCurrent = make(TrustAnchors)
 
@@ -168,16 +181,18 @@ func (r *Resolver) AutoTA() {
 		// Other open errors leave us with an empty in-memory map
 		// and the next AutoTA tick (or a process restart in the
 		// non-transient case) can re-load.
-		if errors.Is(err, errCorruptTombstones) {
-			zlog.Error("Trust anchor tombstones file corrupted — clearing in-memory trust set and aborting refresh", "path", tombstonePath, "error", err.Error())
-			r.Lock()
-			r.rootKeys = nil
-			r.Unlock()
-			refreshResult = taRefreshPersistenceError
-			return
-		}
-		zlog.Warn("Trust anchor tombstones file unreadable — proceeding with empty in-memory tombstones", "path", tombstonePath, "error", err.Error())
-		tombstones = make(Tombstones)
+		// Corrupt or unreadable (anything but "does not exist", which
+		// readTombstones maps to an empty store): the revocations on
+		// record cannot be consulted, so no key can be shown not to be
+		// revoked. Fail closed and retry on the next tick; going on
+		// with an empty map would republish tombstoned keys that are
+		// still configured and overwrite the store without them.
+		zlog.Error("Trust anchor tombstones file corrupted or unreadable — clearing in-memory trust set and aborting refresh", "path", tombstonePath, "error", err.Error())
+		r.Lock()
+		r.rootKeys = nil
+		r.Unlock()
+		refreshResult = taRefreshPersistenceError
+		return
 	}
 
 	// Copy legacy Revoked/Removed entries into the material-keyed
@@ -194,6 +209,22 @@ func (r *Resolver) AutoTA() {
 				if _, exists := tombstones[fp]; !exists {
 					tombstones[fp] = &Tombstone{DNSKey: ta.DNSKey, FirstSeen: ta.FirstSeen}
 				}
+			}
+		}
+	}
+
+	// Admin pre-seeded revocations (configured DNSKEY carrying the
+	// REVOKE bit) are recorded before the precedence pass so that the
+	// same key held as Valid in the state file leaves the trust set in
+	// this run, not in the next one.
+	for _, rr := range r.configuredRootKeys {
+		dnskey, ok := rr.(*dns.DNSKEY)
+		if !ok || dnskey.Flags&DNSKEYFlagKSK == 0 || dnskey.Flags&DNSKEYFlagRevoke == 0 {
+			continue
+		}
+		if fp := dnskeyMaterialFP(dnskey); fp != "" {
+			if _, exists := tombstones[fp]; !exists {
+				tombstones[fp] = &Tombstone{DNSKey: dnskey, FirstSeen: time.Now()}
 			}
 		}
 	}
@@ -390,7 +421,7 @@ func (r *Resolver) AutoTA() {
 		}
 
 		if ta.DNSKey.Flags&DNSKEYFlagRevoke != 0 {
-			oldTag := tag - DNSKEYFlagRevoke
+			oldTag := unrevokedKeyTag(ta.DNSKey)
 			oldTA := kskCurrent[oldTag]
 			// RFC 5011 §4 state table: both Valid + RevBit and
 			// Missing + RevBit transition to revoked. Since Missing
@@ -464,7 +495,11 @@ func (r *Resolver) AutoTA() {
 	// keys or to adjacent state changes.
 	if !revocationOnly {
 		for tag, ta := range kskCurrent {
-			if kskFetched[tag] == nil {
+			// Present means: the fetched key under this tag is this key.
+			// A different key with a colliding tag must neither keep an
+			// absent AddPend key ageing nor hide a Valid key's removal.
+			fetched := kskFetched[tag]
+			if fetched == nil || dnskeyMaterialFP(fetched.DNSKey) != dnskeyMaterialFP(ta.DNSKey) {
 				// RFC 5011 §4 state table: the KeyRem event's effect
 				// depends on the prior state.
 				switch ta.State {
@@ -622,6 +657,19 @@ func autoTARefreshFailureCounter(err error, fallback *metric.Counter) *metric.Co
 // of the real trust anchor. Comparing the actual key material
 // (algorithm, protocol, public key, and flags modulo REVOKE) closes
 // that gap.
+// unrevokedKeyTag is the key tag the DNSKEY had before its REVOKE bit
+// was set. The RFC 4034 Appendix B checksum folds its carry back in, so
+// setting bit 0x0080 raises the tag by 128 or by 129: subtracting
+// DNSKEYFlagRevoke from the revoked tag misses about one key in 400.
+func unrevokedKeyTag(k *dns.DNSKEY) uint16 {
+	if k == nil {
+		return 0
+	}
+	plain := *k
+	plain.Flags &^= DNSKEYFlagRevoke
+	return dnssec.KeyTag(&plain)
+}
+
 func sameKeyExceptRevoke(currentKey, revokedKey *dns.DNSKEY) bool {
 	if currentKey == nil || revokedKey == nil {
 		return false
@@ -685,7 +733,7 @@ func stageRevocationSelfSignatures(
 			existing.DNSKey.Flags == ta.DNSKey.Flags {
 			continue
 		}
-		oldTA := kskCurrent[tag-DNSKEYFlagRevoke]
+		oldTA := kskCurrent[unrevokedKeyTag(ta.DNSKey)]
 		if oldTA == nil || (oldTA.State != StateValid && oldTA.State != StateMissing) {
 			continue
 		}
@@ -752,7 +800,7 @@ func verifyFetchedKeysWithWork(
 		if dnskey.Flags&DNSKEYFlagRevoke == 0 {
 			continue
 		}
-		for _, candidate := range currentKeys[dnssec.KeyTag(dnskey)-DNSKEYFlagRevoke] {
+		for _, candidate := range currentKeys[unrevokedKeyTag(dnskey)] {
 			if sameKeyExceptRevoke(candidate, dnskey) {
 				tag := dnssec.KeyTag(dnskey)
 				revokedBootstrap[tag] = append(revokedBootstrap[tag], dnskey)
@@ -789,6 +837,32 @@ func verifyFetchedKeysWithWork(
 	}
 
 	return false, false, lastErr
+}
+
+// withoutTombstoned drops REVOKE-flagged keys and keys whose material
+// is tombstoned from a configured key list. If the tombstone store
+// exists but cannot be read the result is empty (fail closed); AutoTA
+// re-establishes the trust set on its first run.
+func withoutTombstoned(directory string, keys []dns.RR) []dns.RR {
+	tombstonePath := filepath.Join(directory, tombstoneFile)
+	tombstones, err := readTombstones(tombstonePath)
+	if err != nil {
+		zlog.Error("Trust anchor tombstones file corrupted or unreadable — starting with an empty trust set", "path", tombstonePath, "error", err.Error())
+		return []dns.RR{}
+	}
+	out := make([]dns.RR, 0, len(keys))
+	for _, rr := range keys {
+		if dnskey, ok := rr.(*dns.DNSKEY); ok {
+			if dnskey.Flags&DNSKEYFlagRevoke != 0 {
+				continue
+			}
+			if _, tombstoned := tombstones[dnskeyMaterialFP(dnskey)]; tombstoned {
+				continue
+			}
+		}
+		out = append(out, rr)
+	}
+	return out
 }
 
 func readFromTAFile(filename string) (TrustAnchors, error) {
